@@ -151,3 +151,35 @@ func VerifC03AfterFailure() {
 	vAfterFailure()
 	nd.Reach("C03.afterfailure")
 }
+
+// VerifC03Repeat: renders with equal bindings give identical output also when a bound map has keys
+// that are equal as numbers or print alike (1, 1.0, "1"; int8(3), uint(3)): Go's map order, which
+// differs from one iteration to the next (a solver-chosen permutation here), never shows.
+func VerifC03Repeat() {
+	v := []int{nd.IntIn(0, 2), nd.IntIn(0, 2), nd.IntIn(0, 2)}
+	var mm map[any]any
+	switch nd.Choice(4) {
+	case 0:
+		mm = map[any]any{1: v[0], 1.0: v[1], "1": v[2]}
+	case 1:
+		mm = map[any]any{int8(3): v[0], uint(3): v[1], int64(3): v[2]}
+	case 2:
+		mm = map[any]any{true: v[0], "true": v[1]}
+	case 3:
+		mm = map[any]any{2.5: v[0], float32(2.5): v[1], "k": v[2]}
+	}
+	nd.SymOrderMap(mm)
+	t := []string{"{% for kv in m %}{{ kv[1] }};{% endfor %}", "{{ m | join: ',' }}", "{{ m | first }}{{ m | last }}", "{% tablerow kv in m %}{{ kv[1] }}{% endtablerow %}"}[nd.Choice(4)]
+	tpl, perr := NewEngine().ParseString(t)
+	nd.Assert(perr == nil, "parses")
+	if perr != nil {
+		return
+	}
+	b := Bindings{"m": mm}
+	first, err1 := tpl.RenderString(b)
+	for i := 1; i < c02Reps(); i++ {
+		out, err := tpl.RenderString(b)
+		nd.Assert((err == nil) == (err1 == nil) && out == first, "equal-bindings-identical-output")
+	}
+	nd.Reach("C03.repeat")
+}
